@@ -9,7 +9,7 @@ import PSO.Proofs.FramingExample
 
 Theorems about `PSO.Framing` (lean/PSO/Model/Framing.lean), the model of `TcpConnection` **with the repairs D13
 (negative length disconnects), D53 (`__processConnection`), D75 (private sentinel for "no frame": `None` is a message)
-and D76 (`__trySendBuffer` re-arms the WRITE interest)**; the same functions are what `driver framing` runs against the real
+D76 (`__trySendBuffer` re-arms the WRITE interest) and D83 (the payload must be consumed exactly)**; the same functions are what `driver framing` runs against the real
 class.  Vocabulary (lean/PSO/Proofs/Framing*.lean):
 
 * `frames cfg ms`  : the byte stream `frame (enc m₁) ++ frame (enc m₂) ++ …`, `frame p = le32 |p| ++ p`
@@ -18,6 +18,7 @@ class.  Vocabulary (lean/PSO/Proofs/Framing*.lean):
 * `sentLog`        : the messages passed to `send` since the socket was created (`connect` starts afresh)
 * `writeEv now s`  : one WRITE event of the poller, the socket answering the successive `send` calls with `s`
 * `Writable s`     : the first answer takes at least one byte, no later answer is a hard error
+* `StrictDec cfg`  : a decodable payload followed by anything is rejected (exact consumption, repair D83)
 * `MsgOk cfg m`    : `dec (enc m) = some m`, `|enc m| < 2^31`, its callback does not disconnect (any value is a message, `None` included: D75)
 -/
 namespace PSO.C13
@@ -230,6 +231,65 @@ example : (run Ex.cfg (Conn.init true 0) (Ex.readsUndec.map fun e => readEv e.1 
     (by decide) ⟨by decide, by decide, trivial⟩ (frame [7]) [1, 0, 0, 0, 1]
     (Or.inr ⟨[7], rfl, by decide, rfl⟩) rfl
   exact ⟨h.1, h.2.2.1⟩
+
+/-- **length_overrun_disconnects** (D83).  A length field corrupted UPWARDS: after the frames of `ms` comes a frame
+whose payload `p` is decodable but whose length field says `|p| + k`, `k ≥ 1`, and at least `k` more bytes follow
+(the next frames, say).  With a decoder that consumes its input exactly (`StrictDec`: the repaired
+`zlib.decompressobj` / `pickle.load` path) this is an invalid frame: exactly `ms` is delivered — not the message of
+`p`, nothing behind it — and the connection is DISCONNECTED, in any fragmentation. -/
+theorem length_overrun_disconnects (cfg : Cfg Msg) (hS : StrictDec cfg) (ms : List Msg) (hok : ∀ m ∈ ms, MsgOk cfg m)
+    (c : Conn Msg) (hc : c.state = .connected) (hidle : parseOne cfg.dec c.rbuf = .wait)
+    (evs : List (Nat × List Bytes)) (hne : ∀ e ∈ evs, ∀ b ∈ e.2, b ≠ [])
+    (hg : gapsOk cfg.timeout c.lastRead (evs.map (·.1)))
+    (p : Bytes) (m : Msg) (hp : cfg.dec p = some m) (k : Nat) (hk : 1 ≤ k) (hsz : p.length + k < 2147483648)
+    (rest : Bytes) (hrest : k ≤ rest.length)
+    (hcat : c.rbuf ++ (evs.map (·.2)).flatten.flatten = frames cfg ms ++ (le32 (p.length + k) ++ p ++ rest)) :
+    let c' := run cfg c (evs.map fun e => readEv e.1 e.2)
+    c'.delivered = c.delivered ++ ms ∧ c'.state = .disconnected ∧ c'.nDisc = c.nDisc + 1 ∧
+    c'.rbuf = [] ∧ c'.wbuf = [] ∧ c'.pollMask = none := by
+  have hl : (rest.take k).length = k := by simp [List.length_take]; omega
+  have hx : rest.take k ≠ [] := by
+    intro h; rw [h] at hl; simp at hl; omega
+  refine invalid_disconnects cfg ms hok c hc hidle evs hne hg (frame (p ++ rest.take k)) (rest.drop k)
+    (Or.inr ⟨p ++ rest.take k, rfl, by simp [hl]; omega, hS p _ m hp hx⟩) ?_
+  rw [hcat, frame_overrun p rest k hrest]
+
+/-- non-vacuity: the frame of `true` with its length raised by one, then the frame of `false`: nothing delivered -/
+example : (run Ex.cfg (Conn.init true 0) (Ex.readsOver.map fun e => readEv e.1 e.2)).delivered = [] ++ [] ∧
+    (run Ex.cfg (Conn.init true 0) (Ex.readsOver.map fun e => readEv e.1 e.2)).state = .disconnected := by
+  have h := length_overrun_disconnects Ex.cfg Ex.cfgStrict [] (by simp) (Conn.init true 0) rfl rfl Ex.readsOver
+    (by decide) ⟨by decide, by decide, trivial⟩ [1] true rfl 1 (by decide) (by decide) [1, 0, 0, 0, 0] (by decide) rfl
+  exact ⟨h.1, h.2.1⟩
+
+/-- The unrepaired decoder (D83, case A): a decoder that ignores trailing bytes, as `zlib.decompress` and
+`pickle.loads` do.  The stream is the frames of `[true, false, true]` with the FIRST length field raised by
+exactly one frame (1 → 1 + 4 + 1): `[true, true]` is delivered, the connection stays CONNECTED with an empty
+buffer and no `onDisconnected` — the second message has vanished without a trace. -/
+theorem pinned_length_overrun_counterexample :
+    frames Ex.lenient [true, false, true] = [1, 0, 0, 0, 1, 1, 0, 0, 0, 0, 1, 0, 0, 0, 1] ∧
+    Ex.overrun = [6, 0, 0, 0, 1, 1, 0, 0, 0, 0, 1, 0, 0, 0, 1] ∧
+    (∀ p x m, Ex.lenient.dec p = some m → Ex.lenient.dec (p ++ x) = some m) ∧
+    (run Ex.lenient (Conn.init true 0) [readEv 1 [Ex.overrun]]).delivered = [true, true] ∧
+    (run Ex.lenient (Conn.init true 0) [readEv 1 [Ex.overrun]]).state = .connected ∧
+    (run Ex.lenient (Conn.init true 0) [readEv 1 [Ex.overrun]]).rbuf = [] ∧
+    (run Ex.lenient (Conn.init true 0) [readEv 1 [Ex.overrun]]).nDisc = 0 := by
+  refine ⟨rfl, rfl, ?_, ?_⟩
+  · intro p x m h
+    cases p with
+    | nil => simp [Ex.lenient] at h
+    | cons b t => simpa [Ex.lenient] using h
+  · let c0 : Conn Bool := ((Conn.init true 0 : Conn Bool).feed [Ex.overrun].flatten).atTime 1
+    let c1 : Conn Bool := { c0 with rbuf := [1, 0, 0, 0, 1], delivered := c0.delivered ++ [true] }
+    let c2 : Conn Bool := { c1 with rbuf := [], delivered := c1.delivered ++ [true] }
+    have e : run Ex.lenient (Conn.init true 0) [readEv 1 [Ex.overrun]] = c2 := by
+      simp only [run, List.foldl_cons, List.foldl_nil]
+      rw [poll_readEv Ex.lenient (Conn.init true 0) 1 [Ex.overrun] rfl (by decide) (by decide)]
+      calc parseLoop Ex.lenient c0 = parseLoop Ex.lenient c1 :=
+            parseLoop_msg_nocb Ex.lenient c0 true [1, 0, 0, 0, 1] rfl rfl
+        _ = parseLoop Ex.lenient c2 := parseLoop_msg_nocb Ex.lenient c1 true [] rfl rfl
+        _ = c2 := parseLoop_wait Ex.lenient c2 rfl
+    rw [e]
+    exact ⟨rfl, rfl, rfl, rfl⟩
 
 /-! ## reads interleaved with sends and WRITE events (full duplex) -/
 
